@@ -7,17 +7,3 @@ Set Printing Width 100000000.
 Set Printing Depth 100000000.
 Fixpoint bs (l : list nat) : string := match l with [] => EmptyString | n :: r => String (Ascii.ascii_of_nat n) (bs r) end.
 Definition T_ (b : bool) : string := if b then "T" else "F".
-Definition t214 : pt := (mkPacket (mkPtok 37 "MetaData" 1 0 0) (Some (mkPtok 3 "}" 36 0 113)) [(DMeta (mkMetaDef (mkSpan (mkPtok 37 "MetaData" 1 0 0) (mkPtok 3 "}" 7 0 21)) (mkPtok 37 "MetaData" 1 0 0) (mkPtok 42 "Fields" 1 9 1) (mkPtok 2 "{" 1 16 2) [(MIDecl (mkMetaDecl (mkSpan (mkPtok 27 "int64" 2 4 3) (mkPtok 40 "," 2 19 5)) (TyBasic (mkSpan (mkPtok 27 "int64" 2 4 3) (mkPtok 27 "int64" 2 4 3)) (mkBasicType (mkSpan (mkPtok 27 "int64" 2 4 3) (mkPtok 27 "int64" 2 4 3)) (mkPtok 27 "int64" 2 4 3))) (mkPtok 42 "TargetID" 2 10 4) None (mkPtok 40 "," 2 19 5))); (MIDecl (mkMetaDecl (mkSpan (mkPtok 29 "float64" 3 4 6) (mkPtok 40 "," 3 18 8)) (TyBasic (mkSpan (mkPtok 29 "float64" 3 4 6) (mkPtok 29 "float64" 3 4 6)) (mkBasicType (mkSpan (mkPtok 29 "float64" 3 4 6) (mkPtok 29 "float64" 3 4 6)) (mkPtok 29 "float64" 3 4 6))) (mkPtok 42 "Price" 3 12 7) None (mkPtok 40 "," 3 18 8))); (MIDecl (mkMetaDecl (mkSpan (mkPtok 15 "string" 4 4 9) (mkPtok 40 "," 4 17 11)) (TyDynamic (mkSpan (mkPtok 15 "string" 4 4 9) (mkPtok 15 "string" 4 4 9)) (mkDynamicString (mkSpan (mkPtok 15 "string" 4 4 9) (mkPtok 15 "string" 4 4 9)) (mkPtok 15 "string" 4 4 9))) (mkPtok 42 "Flags" 4 11 10) None (mkPtok 40 "," 4 17 11))); (MIRef (mkRefMetaDecl (mkSpan (mkPtok 42 "TargetID" 5 4 12) (mkPtok 40 "," 5 18 14)) (mkPtok 42 "TargetID" 5 4 12) (mkPtok 42 "Side" 5 13 13) None (mkPtok 40 "," 5 18 14))); (MIDecl (mkMetaDecl (mkSpan (mkPtok 15 "string" 6 4 16) (mkPtok 40 "," 6 21 19)) (TyDynamic (mkSpan (mkPtok 15 "string" 6 4 16) (mkPtok 15 "string" 6 4 16)) (mkDynamicString (mkSpan (mkPtok 15 "string" 6 4 16) (mkPtok 15 "string" 6 4 16)) (mkPtok 15 "string" 6 4 16))) (mkPtok 42 "Symbol" 6 11 17) (Some (mkPtok 43 "``" 6 18 18)) (mkPtok 40 "," 6 21 19)))] (mkPtok 3 "}" 7 0 21))); (DPacket (mkPacketDef (mkSpan (mkPtok 35 "packet" 8 0 22) (mkPtok 3 "}" 13 0 40)) None (mkPtok 35 "packet" 8 0 22) (mkPtok 42 "Fill" 8 7 23) (mkPtok 2 "{" 8 12 24) [(mkFieldWithAttr (mkSpan (mkPtok 36 "repeat" 9 4 25) (mkPtok 40 "," 9 20 27)) [] (ObjectField (mkSpan (mkPtok 36 "repeat" 9 4 25) (mkPtok 40 "," 9 20 27)) (Some (mkPtok 36 "repeat" 9 4 25)) (mkPtok 42 "TargetID" 9 11 26) None None (mkPtok 40 "," 9 20 27))); (mkFieldWithAttr (mkSpan (mkPtok 42 "Symbol" 10 4 28) (mkPtok 40 "," 10 11 29)) [] (ObjectField (mkSpan (mkPtok 42 "Symbol" 10 4 28) (mkPtok 40 "," 10 11 29)) None (mkPtok 42 "Symbol" 10 4 28) None None (mkPtok 40 "," 10 11 29))); (mkFieldWithAttr (mkSpan (mkPtok 42 "Price" 11 4 31) (mkPtok 40 "," 11 10 32)) [] (ObjectField (mkSpan (mkPtok 42 "Price" 11 4 31) (mkPtok 40 "," 11 10 32)) None (mkPtok 42 "Price" 11 4 31) None None (mkPtok 40 "," 11 10 32))); (mkFieldWithAttr (mkSpan (mkPtok 9 "@tag(" 12 4 33) (mkPtok 40 "," 12 36 39)) [(FATag (mkSpan (mkPtok 9 "@tag(" 12 4 33) (mkPtok 6 ")" 12 15 35)) (mkTagAttr (mkSpan (mkPtok 9 "@tag(" 12 4 33) (mkPtok 6 ")" 12 15 35)) (mkPtok 9 "@tag(" 12 4 33) (mkPtok 30 "1128" 12 10 34) (mkPtok 6 ")" 12 15 35)))] (MetaField (mkSpan (mkPtok 16 "char[]" 12 17 36) (mkPtok 40 "," 12 36 39)) None (mkMetaDecl (mkSpan (mkPtok 16 "char[]" 12 17 36) (mkPtok 40 "," 12 36 39)) (TyDynamic (mkSpan (mkPtok 16 "char[]" 12 17 36) (mkPtok 16 "char[]" 12 17 36)) (mkDynamicString (mkSpan (mkPtok 16 "char[]" 12 17 36) (mkPtok 16 "char[]" 12 17 36)) (mkPtok 16 "char[]" 12 17 36))) (mkPtok 42 "price" 12 24 37) (Some (mkPtok 43 "`doc`" 12 30 38)) (mkPtok 40 "," 12 36 39))))] (mkPtok 3 "}" 13 0 40))); (DPacket (mkPacketDef (mkSpan (mkPtok 35 "packet" 14 0 41) (mkPtok 3 "}" 24 0 74)) None (mkPtok 35 "packet" 14 0 41) (mkPtok 42 "Ack" 14 7 42) (mkPtok 2 "{" 14 11 43) [(mkFieldWithAttr (mkSpan (mkPtok 36 "repeat" 15 4 44) (mkPtok 40 "," 21 6 65)) [] (InerObjectField (mkSpan (mkPtok 36 "repeat" 15 4 44) (mkPtok 40 "," 21 6 65)) (Some (mkPtok 36 "repeat" 15 4 44)) (InerObjectDecl (mkSpan (mkPtok 42 "Group" 15 11 45) (mkPtok 3 "}" 21 4 64)) (mkPtok 42 "Group" 15 11 45) (mkPtok 2 "{" 15 17 46) [(MetaField (mkSpan (mkPtok 36 "repeat" 16 8 47) (mkPtok 40 "," 16 35 53)) (Some (mkPtok 36 "repeat" 16 8 47)) (mkMetaDecl (mkSpan (mkPtok 14 "zchar[" 16 15 48) (mkPtok 40 "," 16 35 53)) (TyFixed (mkSpan (mkPtok 14 "zchar[" 16 15 48) (mkPtok 13 "]" 16 24 50)) (mkFixedString (mkSpan (mkPtok 14 "zchar[" 16 15 48) (mkPtok 13 "]" 16 24 50)) (mkPtok 14 "zchar[" 16 15 48) (mkPtok 30 "8" 16 22 49) (mkPtok 13 "]" 16 24 50))) (mkPtok 42 "flags" 16 26 51) (Some (mkPtok 43 "``" 16 32 52)) (mkPtok 40 "," 16 35 53))); (InerObjectField (mkSpan (mkPtok 42 "Hdr" 17 8 54) (mkPtok 40 "," 20 10 63)) None (InerObjectDecl (mkSpan (mkPtok 42 "Hdr" 17 8 54) (mkPtok 3 "}" 20 8 62)) (mkPtok 42 "Hdr" 17 8 54) (mkPtok 2 "{" 17 12 55) [(ObjectField (mkSpan (mkPtok 42 "Price" 18 12 56) (mkPtok 40 "," 18 24 58)) None (mkPtok 42 "Price" 18 12 56) (Some (mkPtok 42 "count" 18 18 57)) None (mkPtok 40 "," 18 24 58)); (MetaField (mkSpan (mkPtok 20 "uint8" 19 12 59) (mkPtok 40 "," 19 26 61)) None (mkMetaDecl (mkSpan (mkPtok 20 "uint8" 19 12 59) (mkPtok 40 "," 19 26 61)) (TyBasic (mkSpan (mkPtok 20 "uint8" 19 12 59) (mkPtok 20 "uint8" 19 12 59)) (mkBasicType (mkSpan (mkPtok 20 "uint8" 19 12 59) (mkPtok 20 "uint8" 19 12 59)) (mkPtok 20 "uint8" 19 12 59))) (mkPtok 42 "account" 19 18 60) None (mkPtok 40 "," 19 26 61)))] (mkPtok 3 "}" 20 8 62)) (mkPtok 40 "," 20 10 63))] (mkPtok 3 "}" 21 4 64)) (mkPtok 40 "," 21 6 65))); (mkFieldWithAttr (mkSpan (mkPtok 14 "zchar[" 22 4 66) (mkPtok 40 "," 22 23 70)) [] (MetaField (mkSpan (mkPtok 14 "zchar[" 22 4 66) (mkPtok 40 "," 22 23 70)) None (mkMetaDecl (mkSpan (mkPtok 14 "zchar[" 22 4 66) (mkPtok 40 "," 22 23 70)) (TyFixed (mkSpan (mkPtok 14 "zchar[" 22 4 66) (mkPtok 13 "]" 22 14 68)) (mkFixedString (mkSpan (mkPtok 14 "zchar[" 22 4 66) (mkPtok 13 "]" 22 14 68)) (mkPtok 14 "zchar[" 22 4 66) (mkPtok 30 "16" 22 11 67) (mkPtok 13 "]" 22 14 68))) (mkPtok 42 "seq_no" 22 16 69) None (mkPtok 40 "," 22 23 70)))); (mkFieldWithAttr (mkSpan (mkPtok 42 "Fill" 23 4 72) (mkPtok 40 "," 23 9 73)) [] (ObjectField (mkSpan (mkPtok 42 "Fill" 23 4 72) (mkPtok 40 "," 23 9 73)) None (mkPtok 42 "Fill" 23 4 72) None None (mkPtok 40 "," 23 9 73)))] (mkPtok 3 "}" 24 0 74))); (DPacket (mkPacketDef (mkSpan (mkPtok 34 "root" 25 0 75) (mkPtok 3 "}" 36 0 113)) (Some (mkPtok 34 "root" 25 0 75)) (mkPtok 35 "packet" 25 5 76) (mkPtok 42 "Entry" 25 12 77) (mkPtok 2 "{" 25 18 78) [(mkFieldWithAttr (mkSpan (mkPtok 36 "repeat" 26 4 79) (mkPtok 40 "," 32 6 96)) [] (InerObjectField (mkSpan (mkPtok 36 "repeat" 26 4 79) (mkPtok 40 "," 32 6 96)) (Some (mkPtok 36 "repeat" 26 4 79)) (InerObjectDecl (mkSpan (mkPtok 42 "Block" 26 11 80) (mkPtok 3 "}" 32 4 95)) (mkPtok 42 "Block" 26 11 80) (mkPtok 2 "{" 26 17 81) [(InerObjectField (mkSpan (mkPtok 42 "Group" 27 8 82) (mkPtok 40 "," 30 10 91)) None (InerObjectDecl (mkSpan (mkPtok 42 "Group" 27 8 82) (mkPtok 3 "}" 30 8 90)) (mkPtok 42 "Group" 27 8 82) (mkPtok 2 "{" 27 14 83) [(MetaField (mkSpan (mkPtok 21 "u16" 28 12 84) (mkPtok 40 "," 28 24 86)) None (mkMetaDecl (mkSpan (mkPtok 21 "u16" 28 12 84) (mkPtok 40 "," 28 24 86)) (TyBasic (mkSpan (mkPtok 21 "u16" 28 12 84) (mkPtok 21 "u16" 28 12 84)) (mkBasicType (mkSpan (mkPtok 21 "u16" 28 12 84) (mkPtok 21 "u16" 28 12 84)) (mkPtok 21 "u16" 28 12 84))) (mkPtok 42 "account" 28 16 85) None (mkPtok 40 "," 28 24 86))); (MetaField (mkSpan (mkPtok 24 "i8" 29 12 87) (mkPtok 40 "," 29 21 89)) None (mkMetaDecl (mkSpan (mkPtok 24 "i8" 29 12 87) (mkPtok 40 "," 29 21 89)) (TyBasic (mkSpan (mkPtok 24 "i8" 29 12 87) (mkPtok 24 "i8" 29 12 87)) (mkBasicType (mkSpan (mkPtok 24 "i8" 29 12 87) (mkPtok 24 "i8" 29 12 87)) (mkPtok 24 "i8" 29 12 87))) (mkPtok 42 "count" 29 15 88) None (mkPtok 40 "," 29 21 89)))] (mkPtok 3 "}" 30 8 90)) (mkPtok 40 "," 30 10 91)); (MetaField (mkSpan (mkPtok 23 "uint64" 31 8 92) (mkPtok 40 "," 31 20 94)) None (mkMetaDecl (mkSpan (mkPtok 23 "uint64" 31 8 92) (mkPtok 40 "," 31 20 94)) (TyBasic (mkSpan (mkPtok 23 "uint64" 31 8 92) (mkPtok 23 "uint64" 31 8 92)) (mkBasicType (mkSpan (mkPtok 23 "uint64" 31 8 92) (mkPtok 23 "uint64" 31 8 92)) (mkPtok 23 "uint64" 31 8 92))) (mkPtok 42 "note" 31 15 93) None (mkPtok 40 "," 31 20 94)))] (mkPtok 3 "}" 32 4 95)) (mkPtok 40 "," 32 6 96))); (mkFieldWithAttr (mkSpan (mkPtok 36 "repeat" 33 4 97) (mkPtok 40 "," 33 20 99)) [] (ObjectField (mkSpan (mkPtok 36 "repeat" 33 4 97) (mkPtok 40 "," 33 20 99)) (Some (mkPtok 36 "repeat" 33 4 97)) (mkPtok 42 "TargetID" 33 11 98) None None (mkPtok 40 "," 33 20 99))); (mkFieldWithAttr (mkSpan (mkPtok 20 "u8" 34 4 101) (mkPtok 40 "," 34 40 106)) [] (LengthField (mkSpan (mkPtok 20 "u8" 34 4 101) (mkPtok 40 "," 34 40 106)) (mkLengthFieldDecl (mkSpan (mkPtok 20 "u8" 34 4 101) (mkPtok 40 "," 34 40 106)) (Some (TyBasic (mkSpan (mkPtok 20 "u8" 34 4 101) (mkPtok 20 "u8" 34 4 101)) (mkBasicType (mkSpan (mkPtok 20 "u8" 34 4 101) (mkPtok 20 "u8" 34 4 101)) (mkPtok 20 "u8" 34 4 101)))) (mkPtok 42 "BodyLength" 34 7 102) (mkLengthOf (mkSpan (mkPtok 7 "@lengthOf(" 34 18 103) (mkPtok 6 ")" 34 38 105)) (mkPtok 7 "@lengthOf(" 34 18 103) (mkPtok 42 "TargetID" 34 29 104) (mkPtok 6 ")" 34 38 105)) None (mkPtok 40 "," 34 40 106)))); (mkFieldWithAttr (mkSpan (mkPtok 22 "u32" 35 4 107) (mkPtok 40 "," 35 43 112)) [] (CheckSumField (mkSpan (mkPtok 22 "u32" 35 4 107) (mkPtok 40 "," 35 43 112)) (mkChecksumFieldDecl (mkSpan (mkPtok 22 "u32" 35 4 107) (mkPtok 40 "," 35 43 112)) (Some (TyBasic (mkSpan (mkPtok 22 "u32" 35 4 107) (mkPtok 22 "u32" 35 4 107)) (mkBasicType (mkSpan (mkPtok 22 "u32" 35 4 107) (mkPtok 22 "u32" 35 4 107)) (mkPtok 22 "u32" 35 4 107)))) (mkPtok 42 "Checksum" 35 8 108) (mkCalculatedFrom (mkSpan (mkPtok 5 "@calculatedFrom(" 35 17 109) (mkPtok 6 ")" 35 41 111)) (mkPtok 5 "@calculatedFrom(" 35 17 109) (mkPtok 31 """SUM8""" 35 34 110) (mkPtok 6 ")" 35 41 111)) None (mkPtok 40 "," 35 43 112))))] (mkPtok 3 "}" 36 0 113)))]).
-Eval vm_compute in ("<<<W214_alias_short>>>" ++ sh_escaped (render (rw_alias_short t214)) "").
-Eval vm_compute in ("<<<W214_alias_long>>>" ++ sh_escaped (render (rw_alias_long t214)) "").
-Eval vm_compute in ("<<<W214_alias_long_opts>>>" ++ sh_escaped (render (rw_alias_long_opts t214)) "").
-Eval vm_compute in ("<<<W214_zchar>>>" ++ sh_escaped (render (rw_zchar t214)) "").
-Eval vm_compute in ("<<<W214_drop_default_pad>>>" ++ sh_escaped (render (rw_drop_default_pad t214)) "").
-Eval vm_compute in ("<<<W214_add_default_pad>>>" ++ sh_escaped (render (rw_add_default_pad t214)) "").
-Eval vm_compute in ("<<<W214_prefix_attr>>>" ++ sh_escaped (render (rw_prefix_attr t214)) "").
-Eval vm_compute in ("<<<W214_default_options>>>" ++ sh_escaped (render (rw_default_options t214)) "").
-Eval vm_compute in ("<<<W214_expand_keys>>>" ++ sh_escaped (render (rw_expand_keys t214)) "").
-Eval vm_compute in ("<<<W214_inline_meta>>>" ++ sh_escaped (render (rw_inline_meta t214)) "").
-Eval vm_compute in ("<<<W214_seps_all>>>" ++ sh_escaped (render (rw_seps_all t214)) "").
-Eval vm_compute in ("<<<W214_seps_none>>>" ++ sh_escaped (render (rw_seps_none t214)) "").
-Eval vm_compute in ("<<<W214_drop_docs>>>" ++ sh_escaped (render (rw_drop_docs t214)) "").
